@@ -4,6 +4,8 @@
 package main
 
 import (
+	"github.com/bokysan/socketace/v2/internal/client/listener"
+	"github.com/bokysan/socketace/v2/internal/util/cert"
 	"fmt"
 	"os"
 	clientcmd "github.com/bokysan/socketace/v2/internal/commands/client"
@@ -220,6 +222,23 @@ func init() {
 	})
 }
 
+// earlyListener: a local peer that is already there when the client starts (as the standard-stream listener's is): its connection
+// is handled as part of Start, and it keeps sending a marker that must never reach the target
+type earlyListener struct {
+	listener.AbstractListener
+	app net.Conn
+}
+
+func (l *earlyListener) Start(ups *upstream.Upstreams, cfg cert.ConfigGetter) error {
+	l.Upstreams, l.Config = ups, cfg
+	app, local := memPipe(0, 0)
+	l.app = app
+	go app.Write([]byte("SECRET-MARKER-0123456789abcdef--"))
+	l.HandleConnection(local) // returns when the connection is over (at once, when the session is refused)
+	return nil
+}
+func (l *earlyListener) Shutdown() error { return nil }
+
 func init() {
 	opTimeout["c04cmd"] = 40 * time.Second
 	// c04cmd <client insecure (-k) 0/1> <secure flag (-s) 0/1>   the client command as the CLI builds it: flags -> Command.Startup -> listener
@@ -251,7 +270,25 @@ func init() {
 		if err := cmd.ListenList.UnmarshalFlag(fmt.Sprintf("echo~tcp://127.0.0.1:%d", lp)); err != nil {
 			return []Tok{TW("startup-err")}
 		}
-		if err := cmd.Startup(make(chan os.Signal)); err != nil {
+		early := len(a) > 2 && a[2].I == 1
+		if early {
+			// c04cmd <k> <s> 1: additionally a peer that connects while the client is starting up
+			el := &earlyListener{}
+			el.Name = "echo"
+			cmd.ListenList = append(listener.Listeners{el}, cmd.ListenList...)
+			done := make(chan error, 1)
+			go func() { done <- cmd.Startup(make(chan os.Signal)) }()
+			select {
+			case err := <-done:
+				if err != nil {
+					return []Tok{TW("startup-err")}
+				}
+			case <-time.After(1500 * time.Millisecond):
+				// the early connection is being served (its handling is part of start-up): go on, it is cut at the end
+				go func() { <-done }()
+				defer el.app.Close()
+			}
+		} else if err := cmd.Startup(make(chan os.Signal)); err != nil {
 			return []Tok{TW("startup-err")}
 		}
 		defer cmd.Shutdown()
